@@ -639,6 +639,13 @@ func attesterRollbackProbe(g *sim.G, label string) []*sim.Op {
 	fail := sim.TxOp("admin:AcceptOwner", &types.MsgAcceptOwner{From: failer})
 	no := false
 	msg := g.Inbound(label+"/in", sim.InboundOpts{ToModule: &no, Submitter: by}).Msg
+	if g.Pct(label+"/failrecv", 60) {
+		// a receive that is validly attested but fails later (wrong destination domain)
+		bad := g.Inbound(label+"/bad", sim.InboundOpts{ToModule: &no, Submitter: failer, Break: []string{"P4"}}).Msg
+		if att := w.HonestAttestation(bad, attest.SigStyle{}); att != nil {
+			fail = sim.TxOp("recv", &types.MsgReceiveMessage{From: failer, Message: bad, Attestation: att})
+		}
+	}
 	if g.Bool(label+"/enable") || len(ks) < 2 || len(w.Model.Atts) <= t {
 		// rolled-back enable of X: an attestation that needs X must still be rejected
 		var x *attest.Key
